@@ -17,7 +17,7 @@ run_one() {
   echo "HL $b: $res"
 }
 export -f run_one
-for t in $tags; do for k in 1 2 3; do echo seeded/harmless/${t}_$k.diff; done; done | xargs -P 3 -I{} bash -c 'run_one {}'
+for t in $tags; do for k in 1 2 3; do echo seeded/harmless/${t}_$k.diff; done; done | xargs -P ${PAR:-3} -I{} bash -c 'run_one {}'
 /venv/bin/python - <<'P'
 import json, glob, os, re
 out = {}
